@@ -25,8 +25,8 @@ RULE = (
 ASSUMPTIONS = ["simulated schedulers (simbin) stand in for Slurm/SGE/LSF", "spec hashing off (covered by C18)"]
 
 
-QUICK_BUDGET = {"cases": 420, "deadline_s": 170, "case_timeout_s": 90, "floors": {"runs": 211, "submissions": 400, "prereq_sets": 400}}
-THOROUGH_FACTOR = 45  # thorough = the same workload with 45x the cases (floors scale along)
+QUICK_BUDGET = {"cases": 1260, "deadline_s": 170, "case_timeout_s": 90, "floors": {"runs": 633, "submissions": 1200, "prereq_sets": 1200}}
+THOROUGH_FACTOR = 15  # thorough = the same workload with 15x the cases (floors scale along)
 
 
 def budget(tier):
